@@ -322,6 +322,49 @@ def dump_instance(args):
     return tag, rec['ok'], rec.get('n', 0)
 
 
+def cross_class(task):
+    size, classes, outdir = task
+    import hashlib
+    import panqec.codes as pc
+    out = []
+
+    def summary(code):
+        H = code.stabilizer_matrix.tocsr()
+        H.sort_indices()
+        h = hashlib.sha1(H.indptr.tobytes() + H.indices.tobytes() + (H.data % 2).astype('uint8').tobytes()).hexdigest()
+        lg = hashlib.sha1(np.asarray(code.logicals_x).astype('uint8').tobytes() + np.asarray(code.logicals_z).astype('uint8').tobytes()).hexdigest()
+        return {'n': int(code.n), 'k': int(code.k), 'd': int(code.d), 'H': h, 'logicals': lg}
+    alone = {}
+    for order in (list(classes), list(reversed(classes))):
+        for pos, cls in enumerate(order):
+            try:
+                got = summary(getattr(pc, cls)(*size))
+            except Exception as ex:
+                got = {'exception': '%s: %s' % (type(ex).__name__, ex)}
+            if cls not in alone:
+                # reference: a fresh process is not available here, so the reference is the stand-alone dump (n, k, d) and, for the
+                # tables, the first time the class is built in this process
+                tag = '%s_%s_none_def' % (cls, 'x'.join(map(str, size)))
+                try:
+                    rec = json.load(open(os.path.join(outdir, tag + '.json')))
+                    ref = {'n': rec.get('n'), 'k': rec.get('k'), 'd': rec.get('d')} if rec.get('ok') else None
+                except Exception:
+                    ref = None
+                alone[cls] = (ref, got)
+            ref, first = alone[cls]
+            bad = []
+            if ref is not None and 'exception' not in got:
+                bad += [f for f in ('n', 'k', 'd') if got[f] != ref[f]]
+            if 'exception' in got and ref is not None:
+                bad.append('exception')
+            if 'exception' not in got and 'exception' not in first:
+                bad += [f for f in ('H', 'logicals') if got[f] != first[f]]
+            if bad:
+                out.append({'cls': cls, 'size': list(size), 'history': order[:pos + 1], 'differs': sorted(set(bad)),
+                            'got': {k_: got.get(k_) for k_ in ('n', 'k', 'd', 'exception')}, 'alone': ref})
+    return out
+
+
 def main():
     outdir, tier = sys.argv[1], sys.argv[2]
     only = None
@@ -344,6 +387,17 @@ def main():
     inst = instances(tier, only, extra)
     with Pool(jobs) as pool:
         res = pool.map(dump_instance, [i + (outdir,) for i in inst], chunksize=4)
+    # history across CLASSES: every undeformed instance once more, all classes of one size built one after the other in ONE
+    # process (two orders); n, k, d and the tables must be what the stand-alone dump recorded
+    groups = {}
+    for (cls, size, name, ax) in inst:
+        if name is None:
+            groups.setdefault(tuple(size), []).append(cls)
+    ctasks = [(size, classes, outdir) for size, classes in sorted(groups.items()) if len(classes) >= 2]
+    with Pool(min(jobs, 8), maxtasksperchild=1) as pool:
+        cross = [d_ for ds_ in pool.map(cross_class, ctasks) for d_ in ds_]
+    with open(os.path.join(outdir, 'CROSS.json'), 'w') as f:
+        json.dump(cross, f)
     with open(os.path.join(outdir, 'INDEX.json'), 'w') as f:
         json.dump([{'tag': t, 'ok': ok, 'n': n} for t, ok, n in res], f)
     print('dumped %d instances, %d failed' % (len(res), sum(1 for r in res if not r[1])))
